@@ -17,6 +17,10 @@ where
     I: Fn() + Sync,
     F: Fn(u64, u64, &mut Acc) + Sync,
 {
+    if crate::hist::replaying() {
+        // `verif replay` of a recorded history only searches the history models
+        return Vec::new();
+    }
     let next = AtomicU64::new(0);
     let nt = n_threads();
     let chunk = chunk.max(1);
